@@ -72,6 +72,8 @@ type Outcome struct {
 	DeclDiffs   []Diff
 	EmitDiffs   []Diff // programs that are not valid Go source but are accepted and lowered to valid Go: reported type vs go/types' type of the syntax the builder holds
 	NCmpEmit    int
+	RecDiffs    []Diff // objects handed to Config.Recorder vs the object go/types selects for the same source node
+	NCmpRec     int
 	FoldedBad   []Diff // builder carries a constant where go/types (on the source) has none / rejects the expression
 	Ops         int
 	OpKinds     map[string]int
@@ -461,6 +463,7 @@ func (o *Outcome) compare(u *ref.Universe, c *fe.Compiler) {
 	if x, y := strings.Join(ref.InitOrder(a), ","), strings.Join(ref.InitOrder(b), ","); x != y && len(o.Src.Files) == 1 {
 		o.OrderDiff = "initialisation order of package-level declarations differs: source [" + x + "] output [" + y + "]"
 	}
+	o.compareRecorder()
 	defer o.compareDecls(c) // after the expression pairs: the first recorded difference of an input stays the same
 	if c.Recs == nil {
 		return
@@ -513,6 +516,70 @@ func (o *Outcome) compare(u *ref.Universe, c *fe.Compiler) {
 			}
 		}
 	}
+}
+
+// compareRecorder: every object handed to Recorder.Member for a source selector expression must be the member go/types
+// selects for that very node in the source program: same name, same kind (field / method), same declaring package, and
+// an identical type. (The recorder is what IDE-like clients use to resolve identifiers; a wrong object here is a wrong
+// "go to definition" even when the emitted code is right.)
+func (o *Outcome) compareRecorder() {
+	if o.Src == nil || o.Src.Info == nil {
+		return
+	}
+	for _, ev := range o.RecEvents {
+		if ev.Kind != "member" || ev.Obj == nil {
+			continue
+		}
+		se, ok := ev.Node.(*ast.SelectorExpr)
+		if !ok {
+			continue
+		}
+		sel, ok := o.Src.Info.Selections[se]
+		if !ok {
+			continue // qualified identifier or a node go/types has no selection for
+		}
+		want := sel.Obj()
+		o.NCmpRec++
+		what := "recorder object for " + types.ExprString(se)
+		_, gotFunc := ev.Obj.(*types.Func)
+		_, wantFunc := want.(*types.Func)
+		pkgOf := func(ob types.Object) string {
+			if ob.Pkg() == nil {
+				return ""
+			}
+			return ob.Pkg().Path()
+		}
+		switch {
+		case ev.Obj.Name() != want.Name() || gotFunc != wantFunc || pkgOf(ev.Obj) != pkgOf(want):
+			o.RecDiffs = append(o.RecDiffs, Diff{what, objStr(ev.Obj), objStr(want)})
+		case !ref.TypeEq(stripRecv(ev.Obj.Type()), stripRecv(want.Type())):
+			o.RecDiffs = append(o.RecDiffs, Diff{what + " (type)", TypeStr(ev.Obj.Type()), TypeStr(want.Type())})
+		}
+	}
+}
+
+func objStr(ob types.Object) string {
+	kind := "var"
+	switch ob.(type) {
+	case *types.Func:
+		kind = "func"
+	case *types.TypeName:
+		kind = "type"
+	case *types.Const:
+		kind = "const"
+	}
+	p := ""
+	if ob.Pkg() != nil {
+		p = ob.Pkg().Path() + "."
+	}
+	return kind + " " + p + ob.Name() + " " + TypeStr(ob.Type())
+}
+
+func stripRecv(t types.Type) types.Type {
+	if sig, ok := t.(*types.Signature); ok && sig.Recv() != nil {
+		return types.NewSignatureType(nil, nil, nil, sig.Params(), sig.Results(), sig.Variadic())
+	}
+	return t
 }
 
 // compareDecls: the type (and, for constants, the value) the builder's scope exposes for every declared object —
@@ -696,6 +763,9 @@ func (o *Outcome) Summary() string {
 	}
 	for _, d := range o.EmitDiffs {
 		fmt.Fprintf(&sb, "emitted-syntax type diff: %s builder=%s go=%s\n", d.Expr, d.Builder, d.Go)
+	}
+	for _, d := range o.RecDiffs {
+		fmt.Fprintf(&sb, "recorder diff: %s builder=%s go=%s\n", d.Expr, d.Builder, d.Go)
 	}
 	for _, d := range o.CValDiffs {
 		fmt.Fprintf(&sb, "const diff: %s builder=%s go=%s\n", d.Expr, d.Builder, d.Go)
